@@ -1,6 +1,6 @@
 """C07 Every program terminates within a fixed instruction budget."""
 import astq
-from rules import a64hsem, decode, jit, jitcross, rv64, x86hsem
+from rules import a64hsem, decode, jit, jitcross, rv64, x86hsem, rtpreserve
 
 LEVEL = 'other'
 TECHNIQUE = 'known-bits abstract interpretation of the branch constant for all 16 shifts + decoder path enumeration (write sets vs last-writer marks) + sibling agreement of the JIT back-ends'
@@ -40,3 +40,4 @@ def run(ctx, R):
         jit.rule_lw_value(ctx, R, arch_)
     x86hsem.rule_cbranch(ctx, R)
     a64hsem.rule_cbranch(ctx, R)
+    rtpreserve.rule_const(ctx, R, 'rvv')     # the CBRANCH mask register of the vector back-end
